@@ -26,7 +26,7 @@ RULE = ("crash points: for each document x configuration every rule of the core/
         "programs.")
 
 DOCS = [
-    "# h\n\n> *a* [l](u) `c`\n\n- x\n- y\n\n```py\nz\n```\n\n![i](j) &amp; \\*\n",
+    "# h\n\n> *a* [l](u) `c`\n\n- x\n- y\n\n```py\nz\n```\n\n![i](j) &amp; \\* [![n *o*](p)](q) [[r] s](t)\n",
     "|a|b|\n|-|-|\n|~~c~~|\"d\"|\n\n[r] -- (c)\n\n[r]: /u 't'\n\nt\n===\n\n***\n",
     "1. a\n\n   b\n2. c\n\n<div>\nh\n</div>\n\n<b>i</b> <http://x.y>  \nk\\\nl\n\n    code\n",
     "> - a\n>   > b\nlazy\n\n[![i](j)](k) **s _e_**\n",
